@@ -30,12 +30,27 @@ from . import common
 W = 64
 
 
+PENDING = {"kind": None, "msg": ""}
+
+
 class Abort(BaseException):
     """path infeasible or cut (BaseException: not caught by `except Exception`)"""
+
+    def __init__(self, *a):
+        super().__init__(*a)
+        # asyncio may swallow or wrap the exception (tasks, TaskGroup): the
+        # engine also looks at this flag when a path ends
+        if PENDING["kind"] is None:
+            PENDING["kind"] = "abort"
 
 
 class Unwind(BaseException):
     """decision/concretisation bound exceeded: reported, never a pass"""
+
+    def __init__(self, *a):
+        super().__init__(*a)
+        PENDING["kind"] = "unwind"
+        PENDING["msg"] = str(a[0]) if a else ""
 
 
 def bvv(v, w=W):
@@ -273,11 +288,22 @@ def explore(harness, maxpaths=20000, maxtime=None):
     t0 = time.time()
     while True:
         E.start()
+        PENDING["kind"] = None
         try:
-            harness()
+            try:
+                harness()
+            except BaseException:
+                if PENDING["kind"] is None:
+                    raise
+            if PENDING["kind"] == "abort":
+                raise Abort()
+            if PENDING["kind"] == "unwind":
+                raise Unwind(PENDING["msg"])
             E.paths += 1
         except Abort:
             E.aborted += 1
+            # obligations recorded on a path that turned out infeasible do
+            # not count
         except Unwind as ex:
             E.unwound += 1
             E.results.append(dict(kind="UNWIND", what=str(ex)))
